@@ -46,6 +46,25 @@ fn stream(kind: u64, seed: u64, n: usize) -> Vec<u8> {
         .collect()
 }
 
+/// like `run`, but the last piece is handed over with `is_final = true` (no separate `finish`)
+fn run_final_flag(data: &[u8], target: usize, part: &[usize]) -> Vec<usize> {
+    let mut c = Chunker::new(target);
+    let mut out = Vec::new();
+    let mut pos = 0;
+    let mut i = 0;
+    while pos < data.len() {
+        let n = part[i % part.len()].min(data.len() - pos).max(1);
+        i += 1;
+        let last = pos + n == data.len();
+        for ch in c.next_block(&data[pos..pos + n], last) {
+            out.push(ch.data.len());
+        }
+        pos += n;
+    }
+    assert!(c.finish().is_none(), "C04 violated: bytes left in the chunker after a final call");
+    out
+}
+
 fn run(data: &[u8], target: usize, part: &[usize]) -> Vec<usize> {
     let mut c = Chunker::new(target);
     let mut out = Vec::new();
@@ -81,6 +100,20 @@ fn chunker_equals_reference_rule_for_all_partitions() {
                     if got.iter().sum::<usize>() != data.len() || got.iter().any(|&l| l > 2 * target) {
                         bad.push(format!("target {target} kind {kind} seed {seed} partition {part:?}: chunks do not tile the input or exceed the maximum"));
                     }
+                }
+            }
+        }
+    }
+    // streams ending at every offset of a chunk's first bytes, last piece flagged final (pieces of 1, 40 and 333 bytes)
+    for &target in &[128usize, 1024] {
+        let base = stream(0, 5, 3 * target);
+        for len in (1..200usize).chain([target / 8, target / 8 + 1, target, 2 * target + 1, 3 * target]) {
+            let data = &base[..len.min(base.len())];
+            let want = reference(data, target);
+            for part in [&[1usize][..], &[40], &[333], &[usize::MAX]] {
+                let got = run_final_flag(data, target, part);
+                if got != want {
+                    bad.push(format!("target {target} len {} partition {part:?} with the final flag: chunker {:?} reference {:?}", data.len(), &got[..got.len().min(6)], &want[..want.len().min(6)]));
                 }
             }
         }
